@@ -31,6 +31,7 @@ def tagsOf (m m' : St) (sp : S) (op : Op) (ob : Obs) : List String :=
   | .off h, .off idx _ _ _ =>
       (match m.live.lookup h with | some sl => if sl.Index ≠ idx then ["off-shifted"] else [] | none => [])
   | .reset, .unit => ["offsetter-reset"]
+  | .resetAll, .unit => ["sequencer-reset-while-parked"]
   | _, _ => []
 
 /-- Model acceptor + monitor. The model state is `none` after the first divergence. -/
